@@ -359,6 +359,8 @@ impl C18 {
             (_, true) => *rng.pick(&[(Some(1e-3), None), (None, Some(0.3)), (None, None), (Some(0.0), None)]),
             (0, _) | (3, _) => (Some(kt_start * *rng.pick(&[0.01, 0.1, 0.5])), None),
             (1, _) => (None, Some(*rng.pick(&[0.0, 0.1, 0.3, 0.5]))),
+            // both given: the ratio decides, whatever the finishing temperature is
+            (2, _) if rng.chance(0.5) => (Some(kt_start * *rng.pick(&[0.5, 0.1, 2.0])), Some(*rng.pick(&[0.3, 0.5, 0.1]))),
             (2, _) => (Some(kt_start * *rng.pick(&[0.01, 0.1, 2.0])), None),
             _ => *rng.pick(&[(None, None), (None, Some(0.3)), (Some(kt_start * 0.01), Some(0.2))]),
         };
